@@ -247,6 +247,7 @@ let run_avl params ops =
     | 3 -> sgn (Z.sub x y)
     | _ -> Z.sub x y in
   let st = ref avl_new in
+  let det : (z * z) nobj list ref = ref [] in
   let freed = ref 0 in
   let kt (k : z * z) = h (fst k) ^ "." ^ h (snd k) in
   let ok = function Some k -> kt k | None -> "-" in
@@ -255,7 +256,8 @@ let run_avl params ops =
   let out = List.map (fun tok ->
     let (o, a) = fields tok in
     let arg i = if i < List.length a then List.nth a i else Z0 in
-    let stepop op = let (s', r) = vstep cmp !st op in st := s'; r in
+    let xop op = let ((s', d'), r) = xstep cmp (!st, !det) op in st := s'; det := d'; r in
+    let stepop op = xop (XBase op) in
     let count () = h (cnt (a_top !st)) in
     let lst c r = match r with VoList l -> String.concat " " (c :: hi (List.length l) :: List.map kt l) | _ -> "?" in
     match o with
@@ -281,6 +283,15 @@ let run_avl params ops =
     | "b" -> lst "b" (stepop VThreadRev)
     | "e" -> (match stepop VEnds with VoEnds (f, l) -> Printf.sprintf "e %s %s" (ok f) (ok l) | _ -> "?")
     | "z" -> freed := !freed + size (); ignore (stepop VClear); "z " ^ count ()
+    | "y" -> ignore (stepop VClear); "y " ^ count ()                  (* avl_clear_tree: freeitem is not called *)
+    | "U" -> (match xop (XUnlink (arg 0, Z0)) with
+        | VoItem (Some k) -> Printf.sprintf "U 1 %s %s" (kt k) (count ())
+        | VoItem None -> "U 0 " ^ count ()
+        | _ -> "?")
+    | "R" -> (match xop (XRelink (nat_of_z (arg 0), (arg 1, arg 2))) with
+        | VoBool b -> Printf.sprintf "R %s %s" (bi b) (count ())
+        | VoUnit -> "R -"
+        | _ -> "?")
     | _ -> "UNKNOWN_OP") ops in
   freed := !freed + size ();
   String.concat " ; " (out @ [Printf.sprintf "Z %s" (hi (if withfree then !freed else 0)); "E 0"])
@@ -289,6 +300,7 @@ let run_avl params ops =
 let run_aseq params ops =
   let withfree = match params with [b] -> b <> Z0 | _ -> failwith "aseq params" in
   let st = ref avl_new in
+  let det : (z * z) nobj list ref = ref [] in
   let freed = ref 0 in
   let kt (k : z * z) = h (fst k) ^ "." ^ h (snd k) in
   let ok = function Some k -> kt k | None -> "-" in
@@ -297,7 +309,8 @@ let run_aseq params ops =
   let out = List.map (fun tok ->
     let (o, a) = fields tok in
     let arg i = if i < List.length a then List.nth a i else Z0 in
-    let stepop op = let (s', r) = qstep !st op in st := s'; r in
+    let eop op = let ((s', d'), r) = estep (!st, !det) op in st := s'; det := d'; r in
+    let stepop op = eop (EBase op) in
     let count () = h (cnt (a_top !st)) in
     let lst c r = match r with QoList l -> String.concat " " (c :: hi (List.length l) :: List.map kt l) | _ -> "?" in
     match o with
@@ -318,6 +331,13 @@ let run_aseq params ops =
     | "b" -> lst "b" (stepop QThreadRev)
     | "e" -> (match stepop QEnds with QoEnds (f, l) -> Printf.sprintf "e %s %s" (ok f) (ok l) | _ -> "?")
     | "z" -> freed := !freed + size (); ignore (stepop QClear); "z " ^ count ()
+    | "y" -> ignore (stepop QClear); "y " ^ count ()
+    | "K" -> (match eop (EUnlinkAt (arg 0)) with
+        | QoItem (Some k) -> Printf.sprintf "K 1 %s %s" (kt k) (count ())
+        | QoItem None -> "K 0 " ^ count ()
+        | _ -> "?")
+    | "Q" -> (match eop (ERelinkBefore (arg 0, nat_of_z (arg 1), (arg 2, arg 3))) with QoCnt c -> "Q " ^ h c | QoUnit -> "Q -" | _ -> "?")
+    | "W" -> (match eop (ERelinkAfter (arg 0, nat_of_z (arg 1), (arg 2, arg 3))) with QoCnt c -> "W " ^ h c | QoUnit -> "W -" | _ -> "?")
     | _ -> "UNKNOWN_OP") ops in
   freed := !freed + size ();
   String.concat " ; " (out @ [Printf.sprintf "Z %s" (hi (if withfree then !freed else 0)); "E 0"])
